@@ -3,7 +3,8 @@ import UF.Model.Lookup
   Model of `networkengine.go`: three tables, `AddRule` = first table that accepts,
   `MatchAll` = concatenation of the three answers.
 -/
-namespace UF
+namespace UF.B
+open UF UF.Bytes
 
 structure Engine where
   sc : ShortcutsTable := {}
@@ -35,4 +36,4 @@ def Engine.matchAll (hf : HashFns) (k : Nat) (retrieve : Idx → Option NetRule)
     (e : Engine) (q : Request) : List NetRule :=
   e.matchAllG hf k retrieve (fun r => r.matches ext q) q.urlLower q.sourceHostname
 
-end UF
+end UF.B
